@@ -7,6 +7,16 @@ reset / step / action_space.sample() is reported to a Recorder.  A step taken
 after the episode ended is logged (after_end) instead of raised, so that the
 trace specification - not the environment - gives the verdict; after a few
 such steps the environment aborts the run (RunAway) to keep runs finite.
+
+Options (defaults leave everything above unchanged): `stay=k` holds every
+state for k consecutive steps (observation of step t is that of t // k:
+self-transitions, next_observation == observation); `reward_scale` multiplies
+the reward (negative: the value of the action just tried goes DOWN, so an
+update can change the maximiser of the row it touches); `exec_probe` - set by
+an adapter of a value-based routine - is called with the observation the
+environment returned last at the moment an action is received and returns
+extra fields of the `step` event (`qrow_fields`: the action values of the
+routine's CURRENT estimate at that observation).
 """
 from __future__ import annotations
 
@@ -128,6 +138,20 @@ class Recorder:
         self.events.append(rec)
 
 
+def qrow_fields(values):
+    """Action values of a routine's current estimate at one observation -> fields of the `step` event:
+    has_q, qrow (float32 ordinals, device D4: TLC decides who the maximisers are)."""
+    from .exact import ord32
+
+    try:
+        v = np.asarray(values, dtype=np.float32).reshape(-1)
+    except Exception as e:  # the estimate cannot be read: nothing to judge (never a verdict)
+        return {"has_q": False, "q_note": f"unreadable:{type(e).__name__}"}
+    if v.size == 0 or not bool(np.all(np.isfinite(v))):
+        return {"has_q": False, "q_note": "empty or non-finite"}
+    return {"has_q": True, "qrow": [ord32(x) for x in v]}
+
+
 class LoggedBox(gym.spaces.Box):
     def attach(self, rec, env_id=0):
         self._rec, self._env_id = rec, env_id
@@ -158,8 +182,11 @@ class ScriptEnv(gym.Env):
     metadata = {"render_modes": []}
 
     def __init__(self, rec: Recorder, script, *, discrete_actions=None, low=(-1.0,), high=(1.0,), discrete_obs=None, env_id=0, max_after_end=3, obs_dim=3,
-                 act_dtype=np.float32):
+                 act_dtype=np.float32, stay=1, reward_scale=1.0):
         self.rec, self.script, self.env_id = rec, list(script), env_id
+        self.stay = max(1, int(stay))
+        self.reward_scale = float(reward_scale)
+        self.exec_probe = None  # callable(observation the env returned last) -> extra fields of the step event
         self.discrete_obs = discrete_obs
         if discrete_obs:
             self.observation_space = gym.spaces.Discrete(discrete_obs)
@@ -179,14 +206,20 @@ class ScriptEnv(gym.Env):
 
     # -- tags
     def _obs(self):
+        if self.stay > 1:
+            # every state is held for `stay` consecutive steps: self-transitions (successor == observation)
+            return self._obs_at(self.t // self.stay)
+        return self._obs_at(self.t)
+
+    def _obs_at(self, t):
         if self.discrete_obs:
             # few states, and odd episodes advance two states per step: the same (state, action) pair is seen with
             # different successors (stochastic-looking transitions for model-based tabular learners), consecutive
             # observations always differ and a reset observation differs from the previous final one (lengths < 5)
             k = min(self.discrete_obs, 8)
-            return int((self.ep * 5 + self.t * (1 + self.ep % 2)) % k)
+            return int((self.ep * 5 + t * (1 + self.ep % 2)) % k)
         o = np.zeros(self.obs_dim, dtype=np.float32)
-        o[0], o[1] = self.ep, self.t
+        o[0], o[1] = self.ep, t
         if self.obs_dim > 2:
             o[2] = self.env_id
         return o
@@ -211,12 +244,18 @@ class ScriptEnv(gym.Env):
         if after_end:
             self.after_end += 1
         length, ending = self.script[self.ep % len(self.script)] if self.ep >= 0 else (1, "term")
+        extra = {}
+        if self.exec_probe is not None:
+            # the routine's current estimate at the observation this action is executed in, read BEFORE anything moves
+            extra = dict(self.exec_probe(self._obs()) or {})
         self.t += 1
         self.n_steps += 1
         done = self.t >= length
         term = bool(done and ending == "term")
         trunc = bool(done and ending == "trunc")
         reward = float(16 * (self.ep % 8) + self.t) + 0.25
+        if self.reward_scale != 1.0:
+            reward = self.reward_scale * reward
         if not after_end:
             self.ended = done
         inb = None
@@ -230,7 +269,7 @@ class ScriptEnv(gym.Env):
         else:
             actf = {"n": int(self.action_space.n), "valid": bool(np.issubdtype(a.dtype, np.integer) or float(a) == int(a)) and 0 <= int(a) < int(self.action_space.n)}
             act = int(a)
-        self.rec.emit("step", env=self.env_id, act=act, actf=actf, obs=self._tag(), r4=int(round(reward * 4)), term=term, trunc=trunc, after_end=bool(after_end))
+        self.rec.emit("step", env=self.env_id, act=act, actf=actf, obs=self._tag(), r4=int(round(reward * 4)), term=term, trunc=trunc, after_end=bool(after_end), **extra)
         if self.after_end >= self.max_after_end:
             raise RunAway("routine keeps stepping an environment whose episode has ended")
         return self._obs(), reward, term, trunc, {}
